@@ -180,3 +180,162 @@ theorem C09_isolation (s : St) (i j : Nat) (hij : i ≠ j) :
 theorem C09_cancelled_connect_harmless (s : St) (i : Nat) : step s (.connx i) = s := rfl
 
 end Hd.Server
+
+namespace Hd.Server
+
+/-! ## Misbehaving clients cannot keep a well-behaved one from being served
+
+Everything a client can do to the server — connect, abandon a connect, send a complete head, part
+of one, garbage, a (partial) HTTP/2 preface, close at any point — in any order and any number, on
+any clients other than `n`. -/
+
+/-- `op` is something done by a client other than `n`. -/
+def otherClientOp (n : Nat) : Op → Bool
+  | .conn i | .connx i | .send i _ | .gate i | .close i => i != n
+  | _ => false
+
+/-- the server is running normally and client `n` has not done anything yet -/
+structure Untouched (s : St) (n : Nat) : Prop where
+  srv : s.srv = .pending
+  listener : s.listener = true
+  makefail : s.cfg.makefail = none
+  lt : n < s.clients.length
+  fresh : getClient s n = {}
+
+theorem modClient_untouched (s : St) (n i : Nat) (f : Client → Client) (hi : i ≠ n) (h : Untouched s n) :
+    Untouched (modClient s i f) n := by
+  refine ⟨h.srv, h.listener, h.makefail, ?_, ?_⟩
+  · simp [modClient, h.lt]
+  · rw [getClient_modClient]
+    have : ¬ (n = i ∧ n < s.clients.length) := fun hh => hi hh.1.symm
+    simp [this, h.fresh]
+
+theorem untouched_step (s : St) (n : Nat) (op : Op) (hop : otherClientOp n op = true) (h : Untouched s n) :
+    Untouched (step s op) n := by
+  cases op with
+  | conn i =>
+    have hi : i ≠ n := by simpa [otherClientOp] using hop
+    show Untouched (stepBasic s (.conn i)) n
+    simp only [stepBasic]
+    split
+    · exact h
+    · split
+      · rename_i hc; simp [h.srv, h.listener] at hc
+      · have h' : Untouched { s with made := s.made + 1 } n := ⟨h.srv, h.listener, h.makefail, h.lt, h.fresh⟩
+        split
+        · rename_i hc; simp [h.makefail] at hc
+        · exact modClient_untouched _ n i _ hi h'
+  | connx i => exact h
+  | send i k =>
+    have hi : i ≠ n := by simpa [otherClientOp] using hop
+    show Untouched (stepBasic s (.send i k)) n
+    simp only [stepBasic]
+    split
+    · exact h
+    · exact modClient_untouched _ n i _ hi h
+  | gate i =>
+    have hi : i ≠ n := by simpa [otherClientOp] using hop
+    exact modClient_untouched _ n i _ hi h
+  | close i =>
+    have hi : i ≠ n := by simpa [otherClientOp] using hop
+    exact modClient_untouched _ n i _ hi h
+  | signal => simp [otherClientOp] at hop
+  | dropListener => simp [otherClientOp] at hop
+  | sigConn i => simp [otherClientOp] at hop
+  | sigDrop => simp [otherClientOp] at hop
+
+theorem untouched_foldl (ops : List Op) (s : St) (n : Nat) (hops : ∀ op ∈ ops, otherClientOp n op = true)
+    (h : Untouched s n) : Untouched (ops.foldl step s) n := by
+  induction ops generalizing s with
+  | nil => exact h
+  | cons op ops ih =>
+    simp only [List.foldl_cons]
+    exact ih _ (fun o ho => hops o (List.mem_cons_of_mem _ ho)) (untouched_step s n op (hops op (List.mem_cons_self)) h)
+
+/-- A fresh client of a normally running server that connects, sends one request and whose handler
+    is released gets exactly one response, on an open connection, and the server keeps running. -/
+theorem probe_served (s : St) (n : Nat) (h : Untouched s n) :
+    let s' := step (step (step s (.conn n)) (.send n .full)) (.gate n)
+    s'.srv = .pending ∧ (getClient s' n).resp = 1 ∧ (getClient s' n).st = .opened ∧ (getClient s' n).eof = false := by
+  have hlt := h.lt
+  have h1 : step s (.conn n) = modClient { s with made := s.made + 1 } n
+      (fun c => { c with st := .opened, srvOpen := true, sniffing := s.cfg.auto }) := by
+    show stepBasic s (.conn n) = _
+    simp only [stepBasic, h.fresh, h.srv, h.listener, h.makefail]
+    simp
+  have g1 : getClient (step s (.conn n)) n = { st := .opened, srvOpen := true, sniffing := s.cfg.auto } := by
+    rw [h1, getClient_modClient]
+    have hf : getClient { s with made := s.made + 1 } n = {} := h.fresh
+    simp [hlt, hf]
+  have hs1 : (step s (.conn n)).srv = .pending := by rw [h1]; exact h.srv
+  have hl1 : n < (step s (.conn n)).clients.length := by rw [h1]; simp [modClient, hlt]
+  generalize step s (.conn n) = s1 at g1 hs1 hl1
+  have g2 : getClient (step s1 (.send n .full)) n = { st := .opened, srvOpen := true, hc := 1, inHandler := true } := by
+    show getClient (stepBasic s1 (.send n .full)) n = _
+    simp only [stepBasic, g1]
+    simp only [bne_self_eq_false, Bool.not_true, Bool.or_self, Bool.false_eq_true, if_false]
+    rw [getClient_modClient]
+    simp only [hl1, and_self, if_true, g1]
+    cases s.cfg.auto <;> simp [startHandler]
+  have hs2 : (step s1 (.send n .full)).srv = .pending := by
+    show (stepBasic s1 (.send n .full)).srv = _
+    simp only [stepBasic]; split <;> simp [modClient, hs1]
+  have hl2 : n < (step s1 (.send n .full)).clients.length := by
+    show n < (stepBasic s1 (.send n .full)).clients.length
+    simp only [stepBasic]; split <;> simp [modClient, hl1]
+  generalize step s1 (.send n .full) = s2 at g2 hs2 hl2
+  have g3 : getClient (step s2 (.gate n)) n = { st := .opened, srvOpen := true, hc := 1, resp := 1 } := by
+    show getClient (modClient s2 n _) n = _
+    rw [getClient_modClient]
+    simp [hl2, g2]
+  refine ⟨?_, ?_, ?_, ?_⟩
+  · exact hs2
+  · rw [g3]
+  · rw [g3]
+  · rw [g3]
+
+/-- **C09 (per-connection faults stay per-connection).** After *any* sequence of operations by
+    other clients — no shutdown signal, the listener kept, make-service not failing — the server
+    is still running and a new well-behaved client is accepted and served. -/
+theorem C09_faults_do_not_stop_service (s : St) (n : Nat) (ops : List Op)
+    (hops : ∀ op ∈ ops, otherClientOp n op = true) (h : Untouched s n) :
+    let s' := (ops ++ [Op.conn n, Op.send n .full, Op.gate n]).foldl step s
+    s'.srv = .pending ∧ (getClient s' n).resp = 1 ∧ (getClient s' n).eof = false := by
+  have hu := untouched_foldl ops s n hops h
+  have hp := probe_served (ops.foldl step s) n hu
+  simp only [List.foldl_append, List.foldl_cons, List.foldl_nil]
+  exact ⟨hp.1, hp.2.1, hp.2.2.2⟩
+
+theorem faultOps_other (n k : Nat) (f : String) (hk : k < n) : ∀ op ∈ faultOps k f, otherClientOp n op = true := by
+  have hne : k ≠ n := Nat.ne_of_lt hk
+  intro op hop
+  unfold faultOps at hop
+  simp only [] at hop
+  split at hop <;> simp at hop <;> (try rcases hop with h | h | h) <;> (try rcases hop with h | h) <;> simp_all [otherClientOp]
+
+/-- **C09 on the kernel-acceptor stream.** Whatever the misbehaving clients of a `srvk` case are
+    (any number, any kind, before or after the server first runs), the model says: the server is
+    still running and the probe client is served. -/
+theorem C09_kernel_stream (auto : Bool) (faults : List String) : kernelRun auto faults = (.pending, true) := by
+  unfold kernelRun kernelOps
+  simp only []
+  have hops : ∀ op ∈ (List.range faults.length |>.zip faults).flatMap (fun p => faultOps p.1 p.2),
+      otherClientOp faults.length op = true := by
+    intro op hop
+    rw [List.mem_flatMap] at hop
+    obtain ⟨⟨k, f⟩, hkf, hop⟩ := hop
+    have hk : k < faults.length := by
+      have := (List.of_mem_zip hkf).1
+      simpa using this
+    exact faultOps_other _ k f hk op hop
+  have h0 : Untouched (kernelInit auto faults.length) faults.length := by
+    refine ⟨rfl, rfl, rfl, by simp [kernelInit], ?_⟩
+    simp [getClient, kernelInit]
+  have := C09_faults_do_not_stop_service _ faults.length _ hops h0
+  simp only [] at this
+  obtain ⟨h1, h2, _⟩ := this
+  simp only [List.foldl_append, List.foldl_cons, List.foldl_nil, getClient, List.getD_eq_getElem?_getD] at h1 h2 ⊢
+  rw [Prod.mk.injEq]
+  exact ⟨h1, by simp [h2]⟩
+
+end Hd.Server
